@@ -166,6 +166,7 @@ void harness(void)
         else if (u == 'X') { op_cleanup(&o[k]); live[k] = 0; CHECK(o[k].ctx == 0 && o[k].vtable == 0, "cleanup leaves the handle cleared"); }
         else if (u == 'Z') { if (!live[k]) memset(&o[k], 0, sizeof o[k]); }
         else {
+            if (u == 'B') { r = op_set_key(&o[k], sym_key, CIPHER == 3 ? 15 : BLK - 1); CHECK(r == 0, "a rejected key returns 0"); continue; }   /* invalid call in the middle of the history */
             if (u == 'K') r = op_set_key(&o[k], sym_key, CIPHER == 3 ? 16 : BLK * (1 + (s % 3)));
 #if CIPHER == 3
             else if (u == 'T') r = op_set_tweak(&o[k], sym_tw, BLK);
